@@ -36,6 +36,18 @@ def run(wd, tag, c, workers=8, timeout=1500, xmx="12g"):
     return r
 
 
+def run_ind(wd, tag, c, workers=8, timeout=2400, xmx="12g"):
+    """Induction step (V2Store!SpecInd): every store within the id bounds that satisfies RowsInv, one call."""
+    cfg = vlib.cfg_text("SpecInd", dict(c, MaxCalls=1), invariants=["RowsInv", "NoTxnAtRest", "LibInv"], properties=["Refines", "FailedCallsAtomic"])
+    t0 = time.time()
+    rc, outp = vlib.run_tlc("V2Store", cfg, wd, tag, workers=workers, timeout=timeout, xmx=xmx)
+    r = vlib.parse_tlc(outp)
+    r["seconds"] = round(time.time() - t0, 1)
+    r["out"] = outp
+    r["rc"] = rc
+    return r
+
+
 def model_check(wd, tier, mc_stats=None, variants=True):
     """Returns (stats, problems).  problems is a list of strings (tool failures / unexpected results)."""
     problems = []
@@ -114,6 +126,11 @@ def model_check_v1(wd, tier, mc_stats=None, variants=True):
 
 if __name__ == "__main__":
     wd = vlib.workdir("mcv2store")
+    if len(sys.argv) > 2 and sys.argv[2] == "ind":
+        kw = dict(maxp=int(sys.argv[3]), maxt=int(sys.argv[4]), maxe=int(sys.argv[5]), names=tuple(sys.argv[6]))
+        r = run_ind(wd, "v2ind", consts("current", **kw), workers=int(os.environ.get("W", "8")))
+        print({k: r[k] for k in r if k != "out"}, r["out"])
+        sys.exit(0)
     fn = model_check_v1 if len(sys.argv) > 2 and sys.argv[2] == "v1" else model_check
     stats, sens, problems = fn(wd, sys.argv[1] if len(sys.argv) > 1 else "quick")
     for s in stats:
